@@ -725,7 +725,7 @@ theorem apply_stepStart {w w' : WriterState} {l : Loc} {d : String} {t : Nat} {t
       exact ⟨x0.steps, g3, g4, g5, by rw [hn]⟩
 
 theorem addEntry_spec {w w' : WriterState} {l : Loc} {t : Nat} {en : Entry} (h : addEntry w l t en = .ok w') :
-    ∃ ref, w.active.lookup t = some ref ∧ truthyTime ref.endTime = false ∧ w'.active = w.active ∧
+    ∃ ref, w.active.lookup t = some ref ∧ w'.active = w.active ∧
       match ref.target with
       | none => w'.report = w.report
       | some (l0, idx) => ∃ steps, getSteps l0 w.report = some steps ∧
@@ -740,25 +740,31 @@ theorem addEntry_spec {w w' : WriterState} {l : Loc} {t : Nat} {en : Entry} (h :
     | none => rw [hl] at h; cases h
     | some ref =>
       rw [hl] at h; dsimp only at h
-      by_cases ht : truthyTime ref.endTime = true
-      · rw [if_pos ht] at h; cases h
-      · rw [if_neg ht] at h
-        refine ⟨ref, rfl, by simpa using ht, ?_⟩
-        cases htg : ref.target with
-        | none =>
-          rw [htg] at h; injection h with h; subst h
+      refine ⟨ref, rfl, ?_⟩
+      cases htg : ref.target with
+      | none =>
+        rw [htg] at h; dsimp only at h
+        split at h
+        · cases h
+        · injection h with h; subst h
           exact ⟨rfl, rfl⟩
-        | some tg =>
-          obtain ⟨l0, idx⟩ := tg
-          rw [htg] at h; dsimp only at h
-          cases hm : modifyResult (fun x => Except.ok { x with steps := modifyNth (addEntryToStep en) idx x.steps })
-              l0 w.report with
-          | error e => rw [hm] at h; cases h
-          | ok r' =>
-            rw [hm] at h; injection h with h; subst h
-            obtain ⟨x, y, g1, g2, g3, g4, g5⟩ := modifyResult_steps hm
-            injection g2 with g2; subst g2
-            exact ⟨rfl, x.steps, g3, g4, g5⟩
+      | some tg =>
+        obtain ⟨l0, idx⟩ := tg
+        rw [htg] at h; dsimp only at h
+        cases hm : modifyResult (addEntryAt idx en) l0 w.report with
+        | error e => rw [hm] at h; cases e <;> cases h
+        | ok r' =>
+          rw [hm] at h; injection h with h; subst h
+          obtain ⟨x, y, g1, g2, g3, g4, g5⟩ := modifyResult_steps hm
+          unfold addEntryAt at g2
+          cases hs : x.steps[idx]? with
+          | none => rw [hs] at g2; cases g2
+          | some st =>
+            rw [hs] at g2; dsimp only at g2
+            split at g2
+            · cases g2
+            · injection g2 with g2; subst g2
+              exact ⟨rfl, x.steps, g3, g4, g5⟩
 
 theorem apply_stepEnd {w w' : WriterState} {l : Loc} {d : String} {t : Nat} {time : Time}
     (h : apply w (.stepEnd l d t time) = .ok w') :
@@ -1155,7 +1161,7 @@ theorem apply_grow {w w' : WriterState} {x : Event} (h : apply w x = .ok w') {l 
         exact ⟨_, g2, StepsGrow.setEnd _ _ _⟩
       · exact ⟨ss, by rw [g3 l e]; exact hss, StepsGrow.refl _⟩
   · rw [apply_logLike hlog ht hloc hen] at h
-    obtain ⟨ref, _, _, _, g⟩ := addEntry_spec h
+    obtain ⟨ref, _, _, g⟩ := addEntry_spec h
     cases htg : ref.target with
     | none => rw [htg] at g; dsimp only at g; exact ⟨ss, by rw [g]; exact hss, StepsGrow.refl _⟩
     | some tg =>
@@ -1229,7 +1235,7 @@ theorem apply_active_stable {w w' : WriterState} {x : Event} (h : apply w x = .o
                 subst this; simp at hx
     rw [g, List.lookup_cons, this]; exact ha
   · rw [apply_logLike hlog ht hloc hen] at h
-    obtain ⟨ref, _, _, g, _⟩ := addEntry_spec h
+    obtain ⟨ref, _, g, _⟩ := addEntry_spec h
     rw [g]; exact ha
   · obtain ⟨_, _, g⟩ := apply_start hst h
     have e : l ≠ l0 := by intro e; apply hl; rw [hst, e]
